@@ -23,7 +23,8 @@ import (
 )
 
 type op struct {
-	K     string `json:"k"` // add | remove
+	K     string `json:"k"` // add | remove | cursor (verif hook: the allocation cursor jumps to Cur)
+	Cur   uint32 `json:"cur,omitempty"`
 	Pfx   int    `json:"pfx"`
 	Shape int    `json:"shape"`
 }
@@ -106,7 +107,15 @@ func genHist(rng *rand.Rand, nops int) hist {
 	present := map[[2]int]bool{}
 	// bias towards few shapes so that identifiers are shared between prefixes and released in every order
 	hot := []int{0, 0, 0, 1, 2, 3, 4, 5, 6, 7}
+	jumpAt := -1
+	if h.Cursor == 0 && rng.IntN(3) == 0 {
+		jumpAt = 10 + rng.IntN(nops/2) // identifiers 1.. are in use by then
+	}
 	for len(h.Ops) < nops {
+		if len(h.Ops) == jumpAt {
+			h.Ops = append(h.Ops, op{K: "cursor", Cur: ^uint32(0) - uint32(rng.IntN(3))})
+			continue
+		}
 		pi := rng.IntN(len(h.Universe))
 		sh := hot[rng.IntN(len(hot))]
 		k := [2]int{pi, sh}
@@ -191,6 +200,11 @@ func runHist(h hist) (res result) {
 	idUsers := map[uint32]int{} // model: identifier -> number of stored (prefix, path) using it, from the dump
 	for i, o := range h.Ops {
 		var err error
+		if o.K == "cursor" {
+			out.Table.VerifSetPathIDCursor(o.Cur)
+			st.wrapped = true
+			continue
+		}
 		g := rig.Guard(func() {
 			p := h.Shapes[o.Shape].Build(rg.Pool)
 			if o.K == "add" {
@@ -302,6 +316,9 @@ func runHist(h hist) (res result) {
 func validOps(h hist) bool {
 	present := map[[2]int]bool{}
 	for _, o := range h.Ops {
+		if o.K == "cursor" {
+			continue
+		}
 		k := [2]int{o.Pfx, o.Shape}
 		if (o.K == "add") == present[k] {
 			return false
@@ -373,7 +390,7 @@ var (
 
 func main() {
 	vf.Main("C11", "exploration", func(r *vf.Run) {
-		r.Rule("PRNG add/remove histories (80 operations) on one add-path Adj-RIB-Out over 6 prefixes with 8 path shapes learned from eBGP neighbours: a base shape, three that differ from it only in attributes the identifier hash does not cover (OTC, an unknown attribute, ATOMIC_AGGREGATE/AGGREGATOR), four that differ in hashed attributes (MED, next hop, communities, other neighbour), three of which arrive with a path identifier of their upstream's numbering (two with the same one); in a third of the histories the allocation cursor starts 0-3 steps before the 32 bit wrap-around (verif hook); no per-path marker, so one shape on several prefixes is attribute-identical and shares its identifier, and shared identifiers are released in every order; 70% iBGP sessions (paths exported unchanged), the rest eBGP, RS-client and RR-client sessions. distinct_nontrivial = histories in which an identifier was shared by several prefixes while a path was withdrawn and a prefix held two paths that differ only in un-hashed attributes")
+		r.Rule("PRNG add/remove histories (80 operations) on one add-path Adj-RIB-Out over 6 prefixes with 8 path shapes learned from eBGP neighbours: a base shape, three that differ from it only in attributes the identifier hash does not cover (OTC, an unknown attribute, ATOMIC_AGGREGATE/AGGREGATOR), four that differ in hashed attributes (MED, next hop, communities, other neighbour), three of which arrive with a path identifier of their upstream's numbering (two with the same one); in a third of the histories the allocation cursor starts 0-3 steps before the 32 bit wrap-around, in another third it jumps there in mid-history while low identifiers are in use (verif hook); no per-path marker, so one shape on several prefixes is attribute-identical and shares its identifier, and shared identifiers are released in every order; 70% iBGP sessions (paths exported unchanged), the rest eBGP, RS-client and RR-client sessions. distinct_nontrivial = histories in which an identifier was shared by several prefixes while a path was withdrawn and a prefix held two paths that differ only in un-hashed attributes")
 		r.Assume("the Adj-RIB-Out is driven with the calls the Loc-RIB makes (AddPath/RemovePath with the Loc-RIB's own path object content)", "a (prefix, path) pair is added at most once before it is removed")
 		_, replay := r.Replaying()
 		hg := rig.NewHangGuard(replay)
